@@ -7,8 +7,15 @@
    represented by its LENGTH only: the readers never inspect block contents, a block
    read is the span (start, len) of the chunk file.
 
-   [ovf] = true is the debug profile (overflow checks: +,- panic), false is release
-   (wrapping).  Not modelled: I/O errors other than end-of-file (the `Some(Err(_))`
+   [ovf] = true is the debug profile (overflow checks: + panics), false is release
+   (wrapping).  After the repair (commit "fix: hardano immutable-db readers report
+   inconsistent index offsets as errors ...") the only arithmetic left that can
+   overflow is the u32 slot counter of the primary reader; before it, the two u64
+   subtractions `current as u64 - start` (secondary.rs) and `next_offset - start`
+   (chunk.rs) panicked in debug on decreasing offsets (release: the first wrapped
+   and seeked backwards, the second wrapped into `vec![0u8; ~2^64]` = "capacity
+   overflow" panic), and `vec![0u8; delta]` with a large corrupted delta aborted
+   the process (allocation failure) in both profiles.  Not modelled: I/O errors other than end-of-file (the `Some(Err(_))`
    arms fed by them are unreachable on regular files), missing files, 32-bit usize.
 
    Definitions only. *)
@@ -16,19 +23,16 @@ From PV Require Import Lib.Base Immutable.ChunkList.
 Open Scope Z_scope.
 
 Definition U32_MAX : Z := 4294967295.
-Definition ISIZE_MAX : Z := 9223372036854775807.
-Definition TWO64 : Z := 18446744073709551616.
 
 (* error classes (what the caller of chunk::read_blocks / the block iterator sees) *)
 Definition E_VERSION : Z := 1.       (* SecondaryIndexError(PrimaryIndexError(VersionMissing)) from read_blocks *)
 Definition E_INCONSISTENT : Z := 2.  (* SecondaryIndexError(InconsistentState) *)
 Definition E_READ_BLOCK : Z := 3.    (* CannotReadBlock *)
 Definition E_FUEL : Z := 99.         (* model artefact: never produced (Proofs.fuel_sufficient) *)
-(* panic classes *)
+(* panic classes (1, 3 and process abort can only be observed on the pre-fix code) *)
 Definition P_SUB : Z := 1.           (* attempt to subtract with overflow *)
 Definition P_ADD : Z := 2.           (* attempt to add with overflow *)
 Definition P_CAP : Z := 3.           (* capacity overflow (Vec larger than isize::MAX) *)
-Definition P_ABORT : Z := 4.         (* memory allocation failed: process abort *)
 
 Definition bind {A B} (o : outcome A) (f : A -> outcome B) : outcome B :=
   match o with Ok a => f a | Err e => Err e | Panic p => Panic p end.
@@ -100,8 +104,7 @@ Definition p_next_occupied (ovf : bool) (s : pstate) : outcome (option pentry * 
 Inductive sres := SOk (block_offset : Z) | SErr (e : Z).
 
 Record sstate := mk_s {
-  s_data : list Z;           (* whole secondary file (for backward seeks) *)
-  s_rest : list Z;           (* bytes from the cursor on *)
+  s_rest : list Z;           (* bytes of the secondary file from the cursor on *)
   s_pos : Z;                 (* stream_position() *)
   s_idx : pstate;
   s_cur : option pentry }.   (* current *)
@@ -134,9 +137,9 @@ Definition ENTRY_SIZE : nat := 56.
 Definition entry_block_offset (e : list Z) : Z := be (firstn 8 e).
 
 Definition s_open (ovf : bool) (idx : pstate) (sec : list Z) : outcome sstate :=
-  bind (p_next_occupied ovf idx) (fun '(cur, idx') => Ok (mk_s sec sec 0 idx' cur)).
+  bind (p_next_occupied ovf idx) (fun '(cur, idx') => Ok (mk_s sec 0 idx' cur)).
 
-Definition s_stop (s : sstate) : sstate := mk_s (s_data s) (s_rest s) (s_pos s) (s_idx s) None.
+Definition s_stop (s : sstate) : sstate := mk_s (s_rest s) (s_pos s) (s_idx s) None.
 
 Definition s_next (ovf : bool) (s : sstate) : outcome (option sres * sstate) :=
   match s_cur s with
@@ -144,21 +147,17 @@ Definition s_next (ovf : bool) (s : sstate) : outcome (option sres * sstate) :=
   | Some (PEmpty _) => Ok (None, s_stop s)                 (* x.offset()? *)
   | Some (POcc _ current) =>
       let start := s_pos s in
-      (* let delta = current as u64 - start;  seek_relative(delta as i64) *)
-      let seek : outcome (list Z) :=
-        if current <? start then
-          if ovf then Panic P_SUB
-          else Ok (skipz current (s_data s))               (* wraps; as i64 is negative: seeks back to [current] *)
-        else Ok (skipz (current - start) (s_rest s)) in
-      bind seek (fun rest1 =>
+      (* let Some(delta) = (current as u64).checked_sub(start) else { current = None; Err(InconsistentState) } *)
+      if current <? start then Ok (Some (SErr E_INCONSISTENT), s_stop s) else
+      (* seek_relative(delta as i64): delta < 2^32; seeking past the end of a file is allowed *)
+      let rest1 := skipz (current - start) (s_rest s) in
       match split_n ENTRY_SIZE rest1 with
       | Some (e, rest2) =>
           bind (p_next_occupied ovf (s_idx s)) (fun '(cur', idx') =>
-          Ok (Some (SOk (entry_block_offset e)),
-              mk_s (s_data s) rest2 (current + 56) idx' cur'))
-      | None =>                                            (* UnexpectedEof *)
-          Ok (Some (SErr E_INCONSISTENT), mk_s (s_data s) [] (Z.max current (Zlength (s_data s))) (s_idx s) None)
-      end)
+          Ok (Some (SOk (entry_block_offset e)), mk_s rest2 (current + 56) idx' cur'))
+      | None =>                                            (* UnexpectedEof; the cursor is never used again *)
+          Ok (Some (SErr E_INCONSISTENT), mk_s [] current (s_idx s) None)
+      end
   end.
 
 (* -------------------------------------------------------------------- chunk.rs *)
@@ -177,22 +176,15 @@ Definition c_open (ovf : bool) (idx : sstate) (clen : Z) : outcome cstate :=
   bind (s_next ovf idx1) (fun '(nxt, idx2) =>
   Ok (mk_c clen 0 idx2 cur nxt))).
 
-(* largest zeroed allocation the allocator grants (machine dependent; only the
-   pre-fix model needs it) *)
-Definition ALLOC_LIMIT : Z := 35184372088832. (* 2^45 *)
-
-(* read_middle_block: returns the item and the new cursor *)
-Definition read_middle_block (ovf : bool) (clen start next_offset : Z) : outcome (item * Z) :=
-  (* let delta = next_offset - start; *)
-  bind (if next_offset <? start then
-          if ovf then Panic P_SUB else Ok (TWO64 + next_offset - start)
-        else Ok (next_offset - start)) (fun delta =>
-  (* vec![0u8; delta as usize] *)
-  if ISIZE_MAX <? delta then Panic P_CAP else
-  if ALLOC_LIMIT <? delta then Panic P_ABORT else
-  (* read_exact *)
-  if start + delta <=? clen then Ok (Blk start delta, start + delta)
-  else Ok (Bad E_READ_BLOCK, clen)).
+(* read_middle_block: returns the item and the new cursor.
+     delta = next_offset.checked_sub(start)              -> None: CannotReadBlock
+     file.by_ref().take(delta).read_to_end(&mut buf)      reads n = min(delta, bytes left)
+     buf.len() < delta                                    -> CannotReadBlock(UnexpectedEof) *)
+Definition read_middle_block (clen start next_offset : Z) : item * Z :=
+  if next_offset <? start then (Bad E_READ_BLOCK, start) else
+  let delta := next_offset - start in
+  let n := Z.min delta (clen - start) in
+  if n <? delta then (Bad E_READ_BLOCK, start + n) else (Blk start delta, start + delta).
 
 (* read_last_block: read_to_end *)
 Definition read_last_block (clen start : Z) : item * Z := (Blk start (clen - start), clen).
@@ -203,9 +195,9 @@ Definition c_next (ovf : bool) (c : cstate) : outcome (option item * cstate) :=
   | Some _, Some (SErr e) =>
       Ok (Some (Bad e), mk_c (c_len c) (c_pos c) (c_idx c) None None)
   | Some _, Some (SOk next_offset) =>
-      bind (read_middle_block ovf (c_len c) (c_pos c) next_offset) (fun '(it, pos') =>
+      let '(it, pos') := read_middle_block (c_len c) (c_pos c) next_offset in
       bind (s_next ovf (c_idx c)) (fun '(nxt', idx') =>
-      Ok (Some it, mk_c (c_len c) pos' idx' (Some (SOk next_offset)) nxt')))
+      Ok (Some it, mk_c (c_len c) pos' idx' (Some (SOk next_offset)) nxt'))
   | Some _, None =>
       let '(it, pos') := read_last_block (c_len c) (c_pos c) in
       Ok (Some it, mk_c (c_len c) pos' (c_idx c) None None)
